@@ -61,6 +61,9 @@ SysChecks(si) ==
   IN
   [ stream_function |-> [a |-> rs # {}, c |-> Cardinality(pairs) = nst],       \* equal states feed equal streams
     stream_injective |-> [a |-> rs # {}, c |-> nstr = nst],                   \* distinct states feed distinct streams
+    \* == of the real states agrees with the abstract state (each successor is compared, in both orders, with the stored
+    \* real states of the most recent distinct projections and with the stored state of its own projection)
+    eq_faithful |-> [a |-> rs # {}, c |-> \A i \in rs : "eq_ok" \in DOMAIN Recs[i] => Recs[i].eq_ok],
     bfs_count |-> [a |-> sum.real_counts, c |-> sum.real_counts => (sum.bfs_done /\ sum.bfs_unique = sum.known)],
     dfs_count |-> [a |-> sum.real_counts, c |-> sum.real_counts => (sum.dfs_done /\ sum.dfs_unique = sum.known)],
     \* every combination of crashed actors within the budget is a distinct recorded state (C09)
